@@ -194,6 +194,20 @@ let run_case op kv : string * string =
          (match tw.tw_shift with
           | Small p -> Printf.sprintf "Small { period: %d }" (int_of_nat p)
           | Large s -> Printf.sprintf "Large { shift: %d }" (int_of_nat s))) r, fmt_trace t)
+  | "prestate" ->
+    let st0 = { ps_skips = n_of_int (num kv "skips"); ps_skipped = n_of_int (num kv "skipped") } in
+    let ops = List.filter (fun s -> s <> "") (String.split_on_char ',' (get kv "ops")) in
+    let rec go st ops outs =
+      match ops with
+      | [] -> Printf.sprintf "%s|%d,%d" (String.concat "" (List.rev outs)) (int_of_n st.ps_skips) (int_of_n st.ps_skipped)
+      | "E" :: rest ->
+        (match pre_is_effective st with
+         | Panic p -> "Panic:" ^ fmt_panic p
+         | Ok (b, st') -> go st' rest ((if b then "t" else "f") :: outs))
+      | u :: rest ->
+        let n = int_of_string (String.sub u 1 (String.length u - 1)) in
+        go (pre_update st (nat_of_int n)) rest outs in
+    (go st0 ops [], "-")
   | "twcert" ->
     let x = bytes kv "x" in
     (Printf.sprintf "fwd=%b,rev=%b" (tw_cert_fwd_of x) (tw_cert_rev_of x), "-")
